@@ -80,7 +80,7 @@ Section LexFuel.
     first [ rewrite lex_tu_eq | rewrite lex_dollar_eq | rewrite lex_braced_eq
           | rewrite lex_text_eq | rewrite lex_twp_eq | rewrite lex_wu_eq
           | rewrite lex_units_eq ];
-    unfold bind.
+    unfold lex_param, lex_suffix, bind.
 
   Ltac lenfacts' :=
     repeat match goal with
